@@ -121,6 +121,12 @@ func (calc *RewardCalculator) secondsPerCycleLatest() (int64, time.Time) {
 		tEnd = calc.blockStore.LoadBlockMeta(cycleEndHeight).Header.Time.UTC()
 		secsPerCycle = int64(tEnd.Sub(tBegin).Seconds())
 	}
+	if secsPerCycle < 1 {
+		// header times have sub-second resolution: a cycle that took less than a second (or a zero
+		// estimate) must not become a zero divisor of the block forecast, which would turn the
+		// forecast, and with it the reward of every block of the next cycle, negative
+		secsPerCycle = 1
+	}
 	return secsPerCycle, tEnd
 }
 
